@@ -372,13 +372,26 @@ Qed.
 Definition valid_order (n : nat) (order : list nat) : Prop :=
   length order = n /\ (forall i, (i < n)%nat -> In i order) /\ (forall j, In j order -> (j < n)%nat).
 
-(* what a node sees and does when nobody is in its way *)
+(* what a node sees and does when nobody is in its way: it is asked for its version at once, is
+   handed the whole payload as soon as it has answered that (never, if it never answers), and its
+   goroutine has its classified answer after the node's own span *)
 Definition solo_view (k : kind) (len : N) (conc : Z) (nd : node) : node_view :=
   let bs := node_behs k len conc nd in
   {| v_start := Some 0;
-     v_calls := calls_of k len conc;
-     v_done := node_dur bs;
+     v_at := n_ver1 nd;
+     v_calls := match n_ver1 nd with Some _ => calls_of k len conc | None => [] end;
+     v_done := node_span k nd bs;
      v_verdict := node_verdict k (n_client nd) bs |}.
+
+Lemma node_span_some k nd bs t :
+  node_span k nd bs = Some t ->
+  exists v d, n_ver1 nd = Some v /\ node_dur bs = Some d /\ v + d <= t.
+Proof.
+  unfold node_span. destruct (n_ver1 nd) as [v|]; [|discriminate].
+  destruct (node_dur bs) as [d|]; [|discriminate].
+  destruct (if asks_again k bs then n_ver2 nd else Some 0) as [w|]; [|discriminate].
+  cbn [oadd]. intros H. injection H as <-. exists v, d. split; [reflexivity|]. split; [reflexivity|]. lia.
+Qed.
 
 Lemma nth_error_combine_seq {A} (l : list A) : forall a i,
   nth_error (combine (seq a (length l)) l) i = option_map (fun x => ((a + i)%nat, x)) (nth_error l i).
@@ -411,16 +424,16 @@ Proof.
   assert (Hlt : (i < length (i_nodes inp))%nat) by (apply nth_error_Some; congruence).
   unfold view_of, solo_view, starts.
   rewrite (sem_all_zero _ order _ i); [|rewrite count0_repeat; lia | apply Hall; exact Hlt].
-  rewrite oadd_0_l. reflexivity.
+  rewrite !oadd_0_l. reflexivity.
 Qed.
 
 Lemma nth_dur_some inp j :
-  (forall nd, In nd (i_nodes inp) -> node_dur (node_behs (i_kind inp) (i_len inp) (i_conc inp) nd) <> None) ->
+  (forall nd, In nd (i_nodes inp) -> node_span (i_kind inp) nd (node_behs (i_kind inp) (i_len inp) (i_conc inp) nd) <> None) ->
   (j < length (i_nodes inp))%nat -> nth j (node_durs inp) None <> None.
 Proof.
   intros H Hj. unfold node_durs.
-  assert (Hin : In (nth j (map (fun nd => node_dur (node_behs (i_kind inp) (i_len inp) (i_conc inp) nd)) (i_nodes inp)) None)
-                   (map (fun nd => node_dur (node_behs (i_kind inp) (i_len inp) (i_conc inp) nd)) (i_nodes inp)))
+  assert (Hin : In (nth j (map (fun nd => node_span (i_kind inp) nd (node_behs (i_kind inp) (i_len inp) (i_conc inp) nd)) (i_nodes inp)) None)
+                   (map (fun nd => node_span (i_kind inp) nd (node_behs (i_kind inp) (i_len inp) (i_conc inp) nd)) (i_nodes inp)))
     by (apply nth_In; rewrite map_length; exact Hj).
   apply in_map_iff in Hin as [nd [E Hnd]]. rewrite <- E. apply H. exact Hnd.
 Qed.
@@ -628,7 +641,7 @@ Proof. intros H. unfold run. rewrite H. reflexivity. Qed.
 
 Lemma whole_payload_lemma {A} inp order i v (xs : list A) :
   wf_input inp -> length xs = N.to_nat (i_len inp) ->
-  nth_error (fst (run inp order)) i = Some v -> v_start v <> None ->
+  nth_error (fst (run inp order)) i = Some v -> v_at v <> None ->
   concat (map (nslice xs) (v_calls v)) = xs
   /\ (i_kind inp <> KAttestations -> v_calls v = [(0, i_len inp)])
   /\ (0 < i_len inp -> Forall (fun c => 0 < snd c) (v_calls v)).
@@ -636,8 +649,8 @@ Proof.
   intros [_ Hc] Hlen Hv Hst. unfold run in Hv.
   destruct (guard_ok (i_kind inp) (i_len inp)) eqn:Hg; cbn [fst] in Hv.
   - rewrite views_nth in Hv. destruct (nth_error (i_nodes inp) i) as [nd|]; [|discriminate].
-    cbn [option_map] in Hv. injection Hv as <-. unfold view_of in *. cbn [v_start v_calls] in *.
-    destruct (lookup_start i (starts inp order)); [|congruence].
+    cbn [option_map] in Hv. injection Hv as <-. unfold view_of in *. cbn [v_at v_calls] in *.
+    destruct (oadd (lookup_start i (starts inp order)) (n_ver1 nd)); [|congruence].
     apply calls_cover; assumption.
   - rewrite nth_error_map in Hv. destruct (nth_error (i_nodes inp) i); [|discriminate].
     cbn in Hv. injection Hv as <-. cbn in Hst. congruence.
@@ -660,14 +673,16 @@ Qed.
 Lemma delivery_eventually inp order i v :
   guard_ok (i_kind inp) (i_len inp) = true -> wf_input inp ->
   valid_order (length (i_nodes inp)) order ->
-  (forall nd, In nd (i_nodes inp) -> node_dur (node_behs (i_kind inp) (i_len inp) (i_conc inp) nd) <> None) ->
+  (forall nd, In nd (i_nodes inp) -> node_span (i_kind inp) nd (node_behs (i_kind inp) (i_len inp) (i_conc inp) nd) <> None) ->
   nth_error (fst (run inp order)) i = Some v ->
-  v_start v <> None /\ v_calls v = calls_of (i_kind inp) (i_len inp) (i_conc inp).
+  v_at v <> None /\ v_calls v = calls_of (i_kind inp) (i_len inp) (i_conc inp).
 Proof.
   intros Hg [_ Hc] [Hlen [Hall Hlt]] Hd Hv. rewrite (run_views _ _ Hg) in Hv. cbn [fst] in Hv.
   rewrite views_nth in Hv.
   destruct (nth_error (i_nodes inp) i) as [nd|] eqn:En; [|discriminate].
-  cbn [option_map] in Hv. injection Hv as <-. unfold view_of. cbn [v_start v_calls].
+  cbn [option_map] in Hv. injection Hv as <-. unfold view_of. cbn [v_at v_calls].
+  assert (Hv1 : n_ver1 nd <> None).
+  { intros E. apply (Hd nd); [eapply nth_error_In; eassumption|]. unfold node_span. rewrite E. reflexivity. }
   assert (Hi : (i < length (i_nodes inp))%nat) by (apply nth_error_Some; congruence).
   assert (Hs : lookup_start i (starts inp order) <> None).
   { unfold starts. apply sem_all_some.
@@ -675,7 +690,8 @@ Proof.
     - apply forallb_repeat. reflexivity.
     - intros j Hj. apply nth_dur_some; [exact Hd | apply Hlt; exact Hj].
     - apply Hall; exact Hi. }
-  destruct (lookup_start i (starts inp order)); [split; [discriminate|reflexivity] | congruence].
+  destruct (lookup_start i (starts inp order)); [|congruence].
+  destruct (n_ver1 nd); [|congruence]. cbn [oadd]. split; [discriminate|reflexivity].
 Qed.
 
 Lemma returns_by_timeout inp order o :
@@ -706,7 +722,7 @@ Lemma success_via inp order i nd d o :
   (Z.of_nat (length (i_nodes inp)) <= i_conc inp)%Z ->
   nth_error (i_nodes inp) i = Some nd ->
   node_verdict (i_kind inp) (n_client nd) (node_behs (i_kind inp) (i_len inp) (i_conc inp) nd) = VOk ->
-  node_dur (node_behs (i_kind inp) (i_len inp) (i_conc inp) nd) = Some d ->
+  node_span (i_kind inp) nd (node_behs (i_kind inp) (i_len inp) (i_conc inp) nd) = Some d ->
   d < i_timeout inp ->
   In o (snd (run inp order)) ->
   fst o = true /\ (0 < d -> snd o <= d).
@@ -728,7 +744,7 @@ Lemma success_iff_clean inp order o :
   let accepted_by (bound : N -> Prop) :=
     exists nd d, In nd (i_nodes inp)
       /\ spec_node_ok (i_kind inp) (n_client nd) (node_behs (i_kind inp) (i_len inp) (i_conc inp) nd) = true
-      /\ node_dur (node_behs (i_kind inp) (i_len inp) (i_conc inp) nd) = Some d /\ bound d in
+      /\ node_span (i_kind inp) nd (node_behs (i_kind inp) (i_len inp) (i_conc inp) nd) = Some d /\ bound d in
   (fst o = true -> accepted_by (fun d => d <= i_timeout inp))
   /\ (accepted_by (fun d => d < i_timeout inp) -> fst o = true).
 Proof.
@@ -744,13 +760,15 @@ Proof.
     rewrite (view_at_once inp order i nd Hord Hc En) in Hdone, Hverd. cbn [solo_view v_done v_verdict] in Hdone, Hverd.
     assert (Hnd : In nd (i_nodes inp)) by (eapply nth_error_In; eassumption).
     unfold clean_input in Hclean. rewrite forallb_forall in Hclean. specialize (Hclean nd Hnd).
-    rewrite (node_verdict_clean _ _ _ m Hclean Hdone) in Hverd.
+    destruct (node_span_some _ _ _ _ Hdone) as [v1 [d1 [_ [Hd1 _]]]].
+    rewrite (node_verdict_clean _ _ _ d1 Hclean Hd1) in Hverd.
     exists nd, m. split; [exact Hnd|]. split; [|split; [exact Hdone | exact Hle]].
     destruct (spec_node_ok _ _ _); [reflexivity | destruct Hverd; discriminate].
   - intros [nd [d [Hnd [Hok [Hd Hlt]]]]].
     apply In_nth_error in Hnd as [i Hi].
     assert (Hnd : In nd (i_nodes inp)) by (eapply nth_error_In; eassumption).
     unfold clean_input in Hclean. rewrite forallb_forall in Hclean. specialize (Hclean nd Hnd).
-    pose proof (node_verdict_clean _ _ _ d Hclean Hd) as Hv. rewrite Hok in Hv.
+    destruct (node_span_some _ _ _ _ Hd) as [v1 [d1 [_ [Hd1 _]]]].
+    pose proof (node_verdict_clean _ _ _ d1 Hclean Hd1) as Hv. rewrite Hok in Hv.
     exact (proj1 (success_via inp order i nd d o Hg HT Hord Hc Hi Hv Hd Hlt Ho)).
 Qed.
